@@ -42,7 +42,8 @@ META = {
 DESTS = ["ret", "text", "bin", "path"]
 SOURCES = ["content_str", "content_bytes", "text_stream", "bin_stream", "path"]
 NONASCII = ["héllo ✓ 漢字", "ünï", "日本語テキスト", "naïve café", "Ω≈ç√∫", "emoji 🙂 here", "mixed ascii and ß", "plain ascii", "çà et là",
-            "Ελληνικά", "русский", "a<b & c>d é", 'quote " é', "tab\tü"]
+            "Ελληνικά", "русский", "a<b & c>d é", 'quote " é', "tab\tü",
+            "première ligne\r\nseconde ligne", "à\ré", "unix\nnewline ü"]
 LOCALS = ["e1", "e2", "a1", "ag1", "r1", "entité", "活動", "x-1", "u_v", "ünit"]
 KNOWN = {"trig-graph-block-order": "C16:trig-graph-block-order"}
 
